@@ -199,25 +199,139 @@ def identifier(ctx, rep, prog):
         rep.analysed_item("Identifier cmp / eq on %d x %d concrete class representatives" % (len(items), len(items)))
 
 
+def _returns_identifier(prog, fn):
+    from ..interp import FnV
+    key = fn.key if isinstance(fn, Clo) else (fn.key() if isinstance(fn, FnV) else None)
+    if key is None or not prog.has_body(key):
+        return None
+    return key if prog.ty_str(prog.body(key)["locals"][0]) == "Identifier" else None
+
+
+def identifier_maps(prog, g, root="version"):
+    """every `map` node of the grammar under `root` whose function returns an Identifier: (node, function key, owner)"""
+    from .. import gram
+    out, seen = [], set()
+
+    def visit(p, path, owner):
+        if p.kind == "map" and _returns_identifier(prog, p.extra):
+            out.append((p, _returns_identifier(prog, p.extra), owner))
+        if p.kind == "ref" and p.extra in g and p.extra not in seen:
+            seen.add(p.extra)
+            gram.walk(g[p.extra], lambda q, pa, o=p.extra: visit(q, pa, o))
+    if root in g:
+        gram.walk(g[root], lambda q, pa: visit(q, pa, root))
+    return out
+
+
+def _text_class(text):
+    if text.isdigit():
+        if len(text) > 1 and text[0] == "0":
+            return "zero-led number"
+        return "zero" if text == "0" else ("digit" if len(text) == 1 else "digits")
+    if text[0].isdigit():
+        return "digit then letter"
+    return "hyphen" if set(text) == {"-"} else ("hyphen then digits" if text[0] == "-" else "letters")
+
+
+def _classify_concrete(prog, fn, text):
+    from ..interp import StrV
+    from ..models import concrete_u64_parse
+    pol = Policy()
+    pol.str_parse = concrete_u64_parse
+    it = Interp(prog, pol)
+    r = it.call_closure(fn, [Ptr(Cell(StrV(text)))]) if isinstance(fn, Clo) else it.call_key(fn.key(), [Ptr(Cell(StrV(text)))])
+    names = [v["name"] for v in prog.adts["Identifier"]["variants"]]
+    numeric = text.isdigit() and int(text) < (1 << 64)
+    good = False
+    if isinstance(r, Adt) and r.name == "Identifier":
+        vn = names[r.variant]
+        p0 = it.strip(r.fields[0])
+        if numeric:
+            good = vn == "Numeric" and p0 == int(text)
+        else:
+            good = vn == "AlphaNumeric" and isinstance(p0, StrV) and p0.s == text
+    return good, r, it
+
+
 def classification(ctx, rep, prog):
     """identifier::{closure#1}: digits that fit u64 become Numeric, everything else AlphaNumeric(text)"""
     rep.rule("T-CLASSIFY", 2, "identifier text that parses as u64 becomes Numeric(n), anything else AlphaNumeric(text)")
-    # the classification is the function mapped over the identifier text in the extracted grammar of `identifier`
+    # the classification is the function mapped over the identifier text in the extracted grammar
     from .. import gram
-    from ..interp import FnV
     g, _ = gram.extract(prog)
-    p = g.get("identifier")
-    while p is not None and p.kind in ("context", "take", "cut_err"):
-        p = p.args[0]
-    fn = p.extra if (p is not None and p.kind == "map") else None
-    if isinstance(fn, Clo):
-        key = fn.key
-    elif isinstance(fn, FnV) and prog.has_body(fn.key()):
-        key = fn.key()
-    else:
-        rep.inconc("T-CLASSIFY: identifier() is not `<text parser>.map(<classification>)` in the extracted grammar (%r)" % (g.get("identifier"),))
+    maps = identifier_maps(prog, g)
+    if not maps:
+        rep.inconc("T-CLASSIFY: no `<text parser>.map(<classification>)` with an Identifier result in the extracted grammar of "
+                   "version (identifier = %r)" % (g.get("identifier"),))
         return
+    for node, key, owner in maps:
+        fails, pending = _classify_one(ctx, rep, prog, node.extra, key)
+        if fails and len(maps) > 1:
+            # several classification functions: one that is wrong on a class of texts matters only if such a text can
+            # reach it. Decided on words: the grammar is evaluated on short version texts and the function is run on
+            # what its node matched.
+            _reachable_misclassification(rep, prog, g, node, key, fails)
+        else:
+            for k, what, ex in fails:
+                rep.fail("T-CLASSIFY", k, what, example=ex)
+        for reason, where in pending:
+            rep.inconc(reason, where)
+    rep.analysed_item("%d classification function(s) of the version grammar (%s) interpreted with str::parse stubbed to "
+                      "Ok(n) / Err and on concrete representative texts" % (len(maps), ", ".join(k for _, k, _ in maps)))
+
+
+def _reachable_misclassification(rep, prog, g, node, key, fails):
+    import itertools
+    from .. import peg
+    from .c05 import build
+    try:
+        L, P, classes, reps, classes_cp, class_of = build(prog, g)
+    except Inconclusive as e:
+        rep.inconc("T-CLASSIFY: %s is wrong on some texts (%s) and the grammar has no word-level evaluation: %s" % (
+            key, fails[0][1], e.reason), e.where)
+        return
+    memo, found = {}, {}
+    alphabet = "10a-.+"
+    n = 0
+    for ln in range(1, 6):
+        for suffix in itertools.product(alphabet, repeat=ln):
+            word = "1.1.1" + "".join(suffix)
+            w = [class_of[ord(ch)] for ch in word]
+            try:
+                r = peg.eval_peg_trace(g, classes, g["version"], w, 0, {id(node)})
+            except Inconclusive as e:
+                rep.inconc("T-CLASSIFY: word-level evaluation: %s" % e.reason, e.where)
+                return
+            if r is None or r[0] != len(w):
+                continue
+            n += 1
+            for _, a, b in r[1]:
+                text = word[a:b]
+                if not text:
+                    continue
+                if text not in memo:
+                    try:
+                        memo[text] = _classify_concrete(prog, node.extra, text)[:2]
+                    except Inconclusive as e:
+                        rep.inconc("T-CLASSIFY (text %r): %s" % (text, e.reason), e.where)
+                        memo[text] = (True, None)
+                good, val = memo[text]
+                if not good and _text_class(text) not in found:
+                    found[_text_class(text)] = (text, val, word)
+    for cls, (text, val, word) in sorted(found.items()):
+        rep.fail("T-CLASSIFY", "%s|T-CLASSIFY|text class: %s" % (key, cls),
+                 "identifier text %r (in %r) is classified as %r" % (text, word, val), example=word)
+    if not found:
+        rep.notes.append("T-CLASSIFY: %s is wrong on some texts (%s) but no version text of up to 10 characters brings such a "
+                         "text to it (%d parseable words examined)" % (key, fails[0][1], n))
+        rep.ok("T-CLASSIFY")
+
+
+def _classify_one(ctx, rep, prog, fn, key):
+    """returns (failures [(key, what, example)], pending inconclusives)"""
+    from ..interp import FnV
     is_closure = isinstance(fn, Clo)
+    fails, pending, abstract_inconc = [], [], []
     ID = "Identifier"
     names = [v["name"] for v in prog.adts[ID]["variants"]]
     # the parsed value may be compared with literals (a numeric cutoff): the literals met are logged and the table is
@@ -244,7 +358,7 @@ def classification(ctx, rep, prog):
         try:
             r = it.call_closure(fn, [Ptr(Cell(text))]) if is_closure else it.call_key(key, [Ptr(Cell(text))])
         except Inconclusive as e:
-            rep.inconc("T-CLASSIFY: " + e.reason, e.where)
+            abstract_inconc.append(("T-CLASSIFY: " + e.reason, e.where))
             continue
         rep.path(("T-CLASSIFY", path_sig(it)))
         for lit in pol.log_literals:
@@ -260,47 +374,45 @@ def classification(ctx, rep, prog):
                 good = vn == "Numeric" and isinstance(p, Tok) and p.name == "n" and p.off == 0
             else:
                 good = vn == "AlphaNumeric" and isinstance(p, Tok) and p.name == "text"
-        if good and "u64" in seen.get("ty", []):
+        if good and ("u64" in seen.get("ty", []) or outcome == "err"):
             rep.ok("T-CLASSIFY")
         else:
-            rep.fail("T-CLASSIFY", "%s|T-CLASSIFY|parse=%s" % (key, outcome),
-                     "classification of %s returned %r (parse type %s)" % (
-                         "text that does not parse" if outcome == "err" else "the number %d" % value, r, seen.get("ty")))
-    rep.analysed_item("%s (the map function of identifier()) interpreted with str::parse stubbed to Ok(n) / Err" % key)
+            fails.append(("%s|T-CLASSIFY|parse=%s" % (key, outcome),
+                          "classification of %s returned %r (parse type %s)" % (
+                              "text that does not parse" if outcome == "err" else "the number %d" % value, r, seen.get("ty")),
+                          None))
     # the same function on one representative text per class of identifier spellings (the classes a byte-level
     # classification could tell apart): concrete texts, str::parse::<u64> as documented
-    from ..interp import StrV
-    from ..models import concrete_u64_parse
     reps_ = [("zero", "0"), ("digit", "7"), ("digits", "10"), ("leading zero", "007"), ("zeros", "00"), ("zero-led number", "01"),
              ("largest u64", "18446744073709551615"), ("above u64", "18446744073709551616"), ("above MAX_SAFE_INTEGER", "900719925474100"),
              ("letters", "abc"), ("digit then letter", "1a"), ("letter then digit", "a1"), ("hyphen", "-"), ("hyphen then digits", "-1"),
              ("digits with hyphen", "1-2")]
+    concrete_clean = True
     for cls, text in reps_:
-        pol = Policy()
-        pol.str_parse = concrete_u64_parse
-        it = Interp(prog, pol)
         try:
-            r = it.call_closure(fn, [Ptr(Cell(StrV(text)))]) if is_closure else it.call_key(key, [Ptr(Cell(StrV(text)))])
+            good, r, it = _classify_concrete(prog, fn, text)
         except Inconclusive as e:
-            rep.inconc("T-CLASSIFY (text %r): %s" % (text, e.reason), e.where)
+            pending.append(("T-CLASSIFY (text %r): %s" % (text, e.reason), e.where))
+            concrete_clean = False
             continue
         rep.path(("T-CLASSIFY", path_sig(it)))
         numeric = text.isdigit() and int(text) < (1 << 64)
-        good = False
-        if isinstance(r, Adt) and r.name == ID:
-            vn = names[r.variant]
-            p0 = it.strip(r.fields[0])
-            if numeric:
-                good = vn == "Numeric" and p0 == int(text)
-            else:
-                good = vn == "AlphaNumeric" and isinstance(p0, StrV) and p0.s == text
         if good:
             rep.ok("T-CLASSIFY")
         else:
-            rep.fail("T-CLASSIFY", "%s|T-CLASSIFY|text class: %s" % (key, cls),
-                     "identifier text %r is classified as %r, expected %s" % (
-                         text, r, "Numeric(%d)" % int(text) if numeric else "AlphaNumeric(%r)" % text),
-                     example="1.0.0-%s" % text)
+            concrete_clean = False
+            fails.append(("%s|T-CLASSIFY|text class: %s" % (key, cls),
+                          "identifier text %r is classified as %r, expected %s" % (
+                              text, r, "Numeric(%d)" % int(text) if numeric else "AlphaNumeric(%r)" % text),
+                          "1.0.0-%s" % text))
+    if abstract_inconc:
+        if concrete_clean:
+            rep.notes.append("T-CLASSIFY: %s looks into the text itself (%s); decided on %d concrete representative texts, one "
+                             "per class of spellings a byte-level classification can tell apart" % (
+                                 key, abstract_inconc[0][0], len(reps_)))
+        else:
+            pending.extend(abstract_inconc)
+    return fails, pending
 
 
 def witness(rep, prog):
